@@ -51,7 +51,7 @@ def run(pid, mode, tier, seed, families=None, extra=None):
     rep.theorems()
     rng = lib.rng_for(seed, pid)
     names = [n for n, o in sorted(ops.ops_for(pid).items()) if families is None or o.family in families]
-    per_op = 4 if tier == 'quick' else 40
+    per_op = 6 if tier == "quick" else 40
     Dmax = 6 if tier == 'quick' else 9
     sub_cases = []
     maxdev = 0.0
